@@ -373,6 +373,15 @@ fn corpus() -> Vec<Vec<Op>> {
             Op::SetBookmark { name: 1, target: vec![Some(2)] },
             Op::Commit,
         ],
+        // a conflicted bookmark that adds the same commit (1) twice; then that commit is rewritten
+        vec![
+            new(&[0], 1), new(&[0], 2), new(&[0], 3),
+            Op::SetBookmark { name: 1, target: vec![Some(1), Some(2), Some(1), Some(2), Some(3)] },
+            Op::Commit,
+            Op::Rewrite { old: 1, ps: None, desc: 4 },
+            Op::Rebase(dflt()),
+            Op::Commit,
+        ],
     ]
 }
 
